@@ -59,6 +59,10 @@ def constructs(c, truthy, bmark, insp):
     yield "not_not", "r := !!(%s)\nr" % c, L(B), "true" if truthy else "false"
     yield "and", "r := %s && t(1)\nr" % c, L(B + ([1] if truthy else [])), "1" if truthy else insp
     yield "or", "r := %s || t(1)\nr" % c, L(B + ([] if truthy else [1])), insp if truthy else "1"
+    yield "or_left_decides", "r := t(1) || %s\nr" % c, L([1]), "1"            # the deciding left operand is evaluated once
+    yield "and_left_decides", "r := t(0) && %s\nr" % c, L([0]), "0"
+    yield "or_assign", "a := %s\na ||= t(1)\na" % c, L(B + ([] if truthy else [1])), insp if truthy else "1"
+    yield "and_assign", "a := %s\na &&= t(1)\na" % c, L(B + ([1] if truthy else [])), "1" if truthy else insp
     yield "and_left", "r := t(1) && %s\nr" % c, L([1]), insp
     yield "or_left", "r := t(0) || %s\nr" % c, L([0]), insp
     yield "return_if", "{|| return t(1) if %s; t(2)}()" % c, L(B + ([1] if truthy else [2])), "1" if truthy else "2"
